@@ -244,6 +244,12 @@ func (r *R) Exec(ctx sdk.Context, line string) (sdk.Context, string) {
 			fmt.Fprintf(os.Stderr, "debug: %s -> %s %s\n", line, class, info)
 		}
 		return ctx, verdictWord[class]
+	case "ghost_update":
+		// the update executed on a context that is thrown away (a simulation, a failed multi-message
+		// transaction, a dropped proposal batch): the parameter set the module USES afterwards is what it was
+		gctx, _ := ctx.CacheContext()
+		r.Exec(gctx, "params update "+strings.Join(f[2:], " "))
+		return ctx, "ghost stored=" + strings.ReplaceAll(r.stored(ctx, mod), " ", "|") + " sv=" + r.storedVerdict(ctx, mod)
 	case "update":
 		auth := hx.Authority()
 		if a["sender"] != "authority" {
